@@ -413,16 +413,18 @@ package utreexo
 //@ func (m *MapPollard) Read(r io.Reader) (n int, err error)
 //@   acquires W
 //@   ensures err == nil ==> allFull
-//@   ensures err == nil ==> n == ioBytes
+//@   ensures n == ioBytes
 //@   loop 1: invariant allFull && totalBytes == ioBytes && 0 <= i
 //@   loop 2: invariant allFull && totalBytes == ioBytes && 0 <= i
 
 //@ func RestorePollardFrom(r io.Reader) (n int64, p *Pollard, err error)
 //@   ensures err == nil ==> allFull
-//@   loop 1: invariant allFull && len(p.Roots) == iterlen_1
+//@   ensures n == int64(ioBytes)
+//@   loop 1: invariant allFull && len(p.Roots) == iterlen_1 && totalBytes == int64(ioBytes)
 
 //@ func (p *Pollard) readOne(n *polNode, r io.Reader) (cnt int64, err error)
 //@   ensures err == nil ==> allFull
+//@   ensures cnt == int64(ioBytes - old(ioBytes))
 //@   ensures len(p.Roots) == old(len(p.Roots))
 
 // ---------------------------------------------------------------------------
@@ -538,11 +540,11 @@ package utreexo
 // exactly the bytes produced (ghost ioBytes).
 
 //@ func writeOne(n *polNode, w io.Writer) (cnt int64, err error)
-//@   ensures err == nil ==> cnt == int64(ioBytes - old(ioBytes))
+//@   ensures cnt == int64(ioBytes - old(ioBytes))
 
 //@ func (p *Pollard) WriteTo(w io.Writer) (n int64, err error)
 //@   requires forall k in 0..len(p.Roots): p.Roots[k] != nil
-//@   ensures err == nil ==> n == int64(ioBytes)
+//@   ensures n == int64(ioBytes)
 //@   loop 1: invariant totalBytes == int64(ioBytes)
 
 //@ func (m *MapPollard) niecesPresent(pos uint64) (res bool)
